@@ -94,7 +94,9 @@ class BatchNorm(Operation):
             if (
                 self.gamma is not None
             ):  # backprop through optional affine transformation
-                gamma = self.gamma.data
+                # (read through `self.variables`: if gamma was updated in-place
+                # since, it holds the tensor with the values used by the forward pass)
+                gamma = self.variables[1].data
                 grad_ *= gamma.reshape(keepdims_shape)
             return grad_
 
